@@ -76,6 +76,63 @@ func newSrcReader(kind string, b []byte) *srcReader {
 	return s
 }
 
+// ---- destinations that already hold content ----
+//
+// The encoders do not return bytes, they write into a destination the caller supplies (*bytes.Buffer,
+// io.Writer), and a caller's buffer is rarely empty: the four attribute bytes of an efivarfs file are
+// written first, a descriptor is appended behind another one, a buffer is reused after part of it was
+// read. "Encoding a value reproduces the bytes" is then a statement about what the call ADDS: the
+// unread content of the destination stays as it is and exactly the encoding follows it. dests gives, for
+// one value, destinations of these classes (content derived from the encoding itself, so that replays are
+// exact): the attribute word; 1, 15, 16, 17 and 40 bytes; a whole earlier encoding; each also with a
+// part of the content already read.
+type destCase struct {
+	pre  []byte
+	read int
+}
+
+func dests(enc []byte, salt int) []destCase {
+	fill := func(n int) []byte {
+		o := make([]byte, n)
+		for i := range o {
+			o[i] = byte(0xA0 + i)
+			if len(enc) > 0 {
+				o[i] ^= enc[(i*7+salt)%len(enc)]
+			}
+		}
+		return o
+	}
+	all := []destCase{
+		{[]byte{0x27, 0x00, 0x00, 0x00}, 0},
+		{fill(1), 0}, {fill(15), 0}, {fill(16), 0}, {fill(17), 0}, {fill(40), 0},
+		{append([]byte{}, enc...), 0},
+		{append([]byte{0x27, 0, 0, 0}, enc...), 4},
+		{fill(40), 7}, {fill(16), 16}, {fill(300), 0},
+	}
+	// three of them per value, rotating
+	return []destCase{all[0], all[1+salt%5], all[6+salt%5]}
+}
+
+// appendsTo runs an encoder on destinations that already hold content; want is what it writes into an empty one
+func appendsTo(c *Ctx, cs Case, name string, want []byte, salt int, enc func(b *bytes.Buffer)) {
+	for _, d := range dests(want, salt) {
+		buf := &bytes.Buffer{}
+		buf.Write(d.pre)
+		buf.Next(d.read)
+		held := append([]byte{}, buf.Bytes()...)
+		if p, msg := safely(func() { enc(buf) }); p {
+			c.Fail(Failure{Kind: "property", What: fmt.Sprintf("%s into a destination that already holds %d unread bytes panicked: %s", name, len(held), msg), Case: cs})
+			return
+		}
+		c.Class(fmt.Sprintf("dest-with-content/%s/%d-held-%d-read", name, len(held), d.read))
+		if exp := append(append([]byte{}, held...), want...); !bytes.Equal(buf.Bytes(), exp) {
+			c.Fail(Failure{Kind: "property", What: fmt.Sprintf("%s into a destination that already holds %d unread bytes: the destination does not read as that content followed by the %d bytes of the encoding (what the same call writes into an empty destination)", name, len(held), len(want)),
+				Case: cs, Go: clip(hx(buf.Bytes())), Spec: clip(hx(held) + " || " + hx(want))})
+			return
+		}
+	}
+}
+
 func c10EvalAuth(c *Ctx, cs Case) {
 	b := unhx(cs.S("bytes"))
 	cls := cs.S("class")
@@ -100,6 +157,11 @@ func c10EvalAuth(c *Ctx, cs Case) {
 	c.Count(cs.Key(), len(b) > 40, "auth/"+cls+"/"+r.kind+"/"+strings.SplitN(goObs, " ", 2)[0])
 	if len(b) < 120 {
 		c.Sample(cs)
+	}
+	if !panicked && err == nil {
+		snap := append([]byte{}, reenc...)
+		appendsTo(c, cs, "Marshal", snap, len(b), func(buf *bytes.Buffer) { d.Marshal(buf) })
+		appendsTo(c, cs, "WriteEFIVariableAuthencation2", snap, len(b)+1, func(buf *bytes.Buffer) { signature.WriteEFIVariableAuthencation2(buf, *d) })
 	}
 	ans := c.Drv.Ask("auth.read", hx(b))
 	mi := strings.Index(ans, " spec=")
@@ -171,6 +233,9 @@ func c10EvalWinCert(c *Ctx, cs Case) {
 		goObs = fmt.Sprintf("ok len=%d rev=%d type=%d cert=%s rest=%d reenc=%s", w.Length, w.Revision, uint16(w.CertType), hx(w.Certificate), r.rest, hx(reenc.Bytes()))
 	}
 	c.Count(cs.Key(), len(b) > 8, "wincert/"+cs.S("class")+"/"+r.kind+"/"+strings.SplitN(goObs, " ", 2)[0])
+	if !panicked && err == nil {
+		appendsTo(c, cs, "WriteWinCertificate", append([]byte{}, reenc.Bytes()...), len(b), func(buf *bytes.Buffer) { signature.WriteWinCertificate(buf, &w) })
+	}
 	c.Trace()
 	if m := c.Drv.Ask("wincert.read", hx(b)); m != goObs {
 		c.Fail(Failure{Kind: "tie", What: "ReadWinCertificate: model and implementation disagree", Case: cs, Model: clip(m), Go: clip(goObs)})
@@ -427,6 +492,17 @@ func c10Seq(c *Ctx, cs Case) {
 			fail(fmt.Sprintf("encoding the value gives %d bytes that are not the %d bytes (16 + dwLength) of its declared-length layout", len(out), len(want)))
 			continue
 		}
+		// 2b. ... also when the destination already holds content (both encoder entry points, and the
+		// WIN_CERTIFICATE_UEFI_GUID part on its own behind a timestamp the caller wrote)
+		n1 := c.NFailures()
+		appendsTo(c, cs, fmt.Sprintf("(step %d of %s) Marshal", i, strings.Join(kinds, ",")), want, i+len(want), func(buf *bytes.Buffer) { obj.Marshal(buf) })
+		appendsTo(c, cs, fmt.Sprintf("(step %d of %s) WriteEFIVariableAuthencation2", i, strings.Join(kinds, ",")), want, i+len(want)+1, func(buf *bytes.Buffer) { signature.WriteEFIVariableAuthencation2(buf, obj) })
+		if len(want) >= 16 {
+			appendsTo(c, cs, fmt.Sprintf("(step %d of %s) WriteWinCertificateUEFIGUID", i, strings.Join(kinds, ",")), want[16:], i+len(want)+2, func(buf *bytes.Buffer) { signature.WriteWinCertificateUEFIGUID(buf, &obj.AuthInfo) })
+		}
+		if c.NFailures() > n1 {
+			continue
+		}
 		// 3. decoding the encoding in front of the payload gives the fields back and leaves the payload alone
 		src := newSrcReader(readerKinds[(i+len(out))%len(readerKinds)], append(append([]byte{}, out...), payload...))
 		var d2 *signature.EFIVariableAuthentication2
@@ -632,7 +708,7 @@ func c10Gen(c *Ctx) {
 
 func init() {
 	register("C10", &PropDef{
-		Rule:   "descriptors with any timestamp, certificate-data length in {0,1,7,16,100,1500,random<=64KiB, and 65511..65536 where dwLength crosses 2^16}, PKCS7 or random type GUID, followed by payloads of 0..300 bytes; variants with a wrong revision, a declared length beyond the data, and a declared length shorter than the data (surplus is payload); the .auth fixtures of the repository; plain WIN_CERTIFICATEs of all three certificate types (up to 64 KiB). Each input is handed to the decoder through a bytes.Reader, a bytes.Buffer, a one-byte-at-a-time reader, a reader that returns its last data together with io.EOF, or a half-count reader, over a private copy, and the source (buffer drained, reset and reused; backing array overwritten) is destroyed before the decoded value is inspected and re-encoded. Sequences on ONE EFIVariableAuthentication2 value (2..6 steps): it is built by NewEFIVariableAuthentication2 or decoded, then again decoded into as the receiver of Unmarshal (so a second, third descriptor - with empty or non-empty certificate data, dwLength 24..24+1500 - lands in an object that held another one), replaced by the result of ReadEFIVariableAuthencation2, given a new AuthInfo by ReadWinCertificateUEFIGUID, and edited (Time, type GUID, certificate data with dwLength adjusted); after every step the object must hold exactly the fields these steps define, must encode (Marshal and WriteEFIVariableAuthencation2, also compared with the encoder model and Spec.encAuth through the driver op auth.write) to the 16+dwLength bytes of their declared-length layout, and decoding that encoding in front of a payload must return the fields and leave the payload; failing sequences are shrunk by deleting steps. Inputs on which the unrepaired decoder would terminate the process (body shorter than a GUID, dwLength < 8) belong to C13/C14 and are generated there. Non-trivial: longer than the fixed header; distinct = distinct byte strings.",
+		Rule:   "descriptors with any timestamp, certificate-data length in {0,1,7,16,100,1500,random<=64KiB, and 65511..65536 where dwLength crosses 2^16}, PKCS7 or random type GUID, followed by payloads of 0..300 bytes; variants with a wrong revision, a declared length beyond the data, and a declared length shorter than the data (surplus is payload); the .auth fixtures of the repository; plain WIN_CERTIFICATEs of all three certificate types (up to 64 KiB). Each input is handed to the decoder through a bytes.Reader, a bytes.Buffer, a one-byte-at-a-time reader, a reader that returns its last data together with io.EOF, or a half-count reader, over a private copy, and the source (buffer drained, reset and reused; backing array overwritten) is destroyed before the decoded value is inspected and re-encoded. Sequences on ONE EFIVariableAuthentication2 value (2..6 steps): it is built by NewEFIVariableAuthentication2 or decoded, then again decoded into as the receiver of Unmarshal (so a second, third descriptor - with empty or non-empty certificate data, dwLength 24..24+1500 - lands in an object that held another one), replaced by the result of ReadEFIVariableAuthencation2, given a new AuthInfo by ReadWinCertificateUEFIGUID, and edited (Time, type GUID, certificate data with dwLength adjusted); after every step the object must hold exactly the fields these steps define, must encode (Marshal and WriteEFIVariableAuthencation2, also compared with the encoder model and Spec.encAuth through the driver op auth.write) to the 16+dwLength bytes of their declared-length layout, and decoding that encoding in front of a payload must return the fields and leave the payload; failing sequences are shrunk by deleting steps. DESTINATIONS THAT ALREADY HOLD CONTENT: every successfully decoded descriptor / WIN_CERTIFICATE and every value of a sequence step is also encoded (Marshal, WriteEFIVariableAuthencation2, WriteWinCertificateUEFIGUID, WriteWinCertificate) into three buffers that are not empty - the four attribute bytes of an efivarfs file, 1/15/16/17/40/300 bytes, a whole earlier encoding of the same value (a second descriptor appended behind the first), each also with a part of the content already read; oracle: the unread content stays as it is and exactly the bytes the same call writes into an empty destination follow it. Inputs on which the unrepaired decoder would terminate the process (body shorter than a GUID, dwLength < 8) belong to C13/C14 and are generated there. Non-trivial: longer than the fixed header; distinct = distinct byte strings.",
 		Assume: []string{},
 		Eval:   c10Eval, Gen: c10Gen,
 	})
